@@ -83,6 +83,9 @@ def c04(ctx):
     import p_thread
     ctx.add(p_thread.main_consumer_table(fx))
     ctx.add(p_thread.spawn_join(fx))
+    # ... and the updater the binary hands to the driver delivers what it is sent
+    import p_deliver
+    ctx.add(p_deliver.errors_delivered(fx))
 
 
 PROPS = {}
@@ -95,8 +98,10 @@ PROPS["C04"] = dict(
          "Option<Error> APIs, outside log/format/derive expansions, in all three crates, is classified by "
          "forward def-use as PROPAGATED/RETURNED/TRANSFORMED/MATCHED(+failure signal on every path out of the "
          "Err arm)/UNWRAPPED; DISCARDED or HANDLED-LOCALLY fails unless its exact key is allow-listed with a "
-         "reason. R-PROBE: every error-blind probe is tabled. Non-trivial = instance is not satisfied by "
-         "plain `?` propagation alone or lies on a worker/walker path.",
+         "reason. R-PROBE: every error-blind probe is tabled. R-WHO: the StatusUpdater the binary gives to "
+         "CopyDriver::copy is an Arc::new(T) whose <T as StatusUpdater>::send reaches a channel send (failures of pool "
+         "jobs and of finalisation in Drop reach main only as StatusUpdate::Error). Non-trivial = instance is not "
+         "satisfied by plain `?` propagation alone or lies on a worker/walker path.",
     explanation="Exhaustive static rule check over the compiled program's MIR: decides the error-discipline "
                 "clause of C04 (no fallible step's failure can be followed by a success path without an Err "
                 "return, a StatusUpdate::Error, or a panic of a joined thread), not run-time behaviour under "
